@@ -247,6 +247,8 @@ def all_wellformed(hdrs, tph):
     st_ = derive_struct(hdrs)
     if any("\\" in v for v in hdrs.values()):
         return False   # quoted-pair subtleties: no demand
+    if any((ord(ch) < 0x20 and ch != "\t") or ord(ch) == 0x7f for v in hdrs.values() for ch in v):
+        return False   # control characters are not qdtext / token characters: such a value is not "well-formed", no demand
     for k in tph:
         v = hdrs.get(k)
         if v is None:
